@@ -165,6 +165,9 @@ def gen_case(rng, flavour, force_mode=None):
     U = universe(rng, all_scaled, nq + rng.randint(5, 40))
     Mq = mh_for_scaled(sq)
     Uq = [h for h in U if h <= Mq]
+    if len(Uq) < 3:   # degenerate universe (every hash above the query's threshold): add a few below it
+        U = sorted(set(U) | {rng.randint(1, Mq) for _ in range(5)})
+        Uq = [h for h in U if h <= Mq]
     # make sure some query hashes survive at the coarsest value in play
     Mc = mh_for_scaled(max(all_scaled))
     low = [h for h in Uq if h <= Mc]
@@ -525,12 +528,15 @@ def oracle(case, impl):
             bad.append((idx, "C07:unique-overlap-not-intersection",
                         "the reported unique intersection is not (unassigned hashes) & (match)"))
         if len(cur & Dd) != best:
-            better = [x for x in R["db"] if ov[x["name"]] > len(cur & Dd)]
+            # sketches that beat the reported one AND reach threshold_bp (a sketch below the threshold is not
+            # eligible; if the reported one is itself below it, that is the below-threshold clause's business)
+            better = [x for x in R["db"] if ov[x["name"]] > len(cur & Dd) and ov[x["name"]] * s >= R["thr"]]
             sig = "C07:not-maximal"
             if all(d6_dropped(R, y, s, first=(rank == 0)) for y in better):
                 sig = D6_SIG
-            bad.append((idx, sig,
-                        f"reported {name} overlaps {len(cur & Dd)} unassigned hashes, the maximum is {best}"))
+            if better:
+                bad.append((idx, sig,
+                            f"reported {name} overlaps {len(cur & Dd)} unassigned hashes, the maximum is {best}"))
         if len(cur & Dd) * s < R["thr"] or not (cur & Dd):
             sig = "C07:below-threshold"
             if d6_admitted(R, D, s, first=(rank == 0)):
